@@ -125,4 +125,39 @@ def blockHeaderBody (h : BlockHeader) : Bytes :=
 /-- `BlockHeader.Hash()` = `mapBlockHeader`: five fields; witness and suplinks are not read -/
 def blockHash (H : Bytes → Bytes) (h : BlockHeader) : Bytes := entryID H tBlockHeader (blockHeaderBody h)
 
+/-! ### the hashed fields the bodies above were written against (tied to the source by `Ties/C03`)
+
+  BlockHeader  → blockHeaderBody      Coinbase → `encVarstr arb` in inputEntry     Issuance → `H nonce ++ (asset ++ le64 amount)`
+  Mux          → muxBody              OriginalOutput → originalOutputBody          Retirement → `valueSource …` in resultID
+  Spend / VetoInput → `prevoutID …`   TxHeader → txHeaderBody                      VoteOutput → voteOutputBody
+  ValueSource{Ref, Value{AssetId, Amount}, Position} → valueSource;  Program{VmVersion, Code} → programBody;
+  AssetDefinition{IssuanceProgram, Data} → computeAssetID -/
+
+/-- (Go entry type, `typ()` string, ordered `mustWriteForHash` arguments) -/
+def hashedFields : List (String × String × List String) := [
+  ("BlockHeader", "blockheader", ["Version", "Height", "PreviousBlockId", "Timestamp", "TransactionsRoot"]),
+  ("Coinbase", "coinbase1", ["Arbitrary"]),
+  ("Issuance", "issuance1", ["NonceHash", "Value"]),
+  ("Mux", "mux1", ["Sources", "Program"]),
+  ("OriginalOutput", "originalOutput1", ["Source", "ControlProgram", "StateData"]),
+  ("Retirement", "retirement1", ["Source"]),
+  ("Spend", "spend1", ["SpentOutputId"]),
+  ("TxHeader", "txheader", ["Version", "TimeRange", "ResultIds"]),
+  ("VetoInput", "vetoInput1", ["SpentOutputId"]),
+  ("VoteOutput", "voteOutput1", ["Source", "ControlProgram", "Vote", "StateData"])]
+
+/-- declaration order of the fields of the structs `writeForHash` traverses by reflection -/
+def hashedStructs : List (String × List String) := [
+  ("AssetAmount", ["AssetId *AssetID", "Amount uint64"]),
+  ("AssetDefinition", ["IssuanceProgram *Program", "Data *Hash"]),
+  ("AssetID", ["V0 uint64", "V1 uint64", "V2 uint64", "V3 uint64"]),
+  ("Hash", ["V0 uint64", "V1 uint64", "V2 uint64", "V3 uint64"]),
+  ("Program", ["VmVersion uint64", "Code []byte"]),
+  ("ValueDestination", ["Ref *Hash", "Value *AssetAmount", "Position uint64"]),
+  ("ValueSource", ["Ref *Hash", "Value *AssetAmount", "Position uint64"])]
+
+/-- the model's type tags, in the order of `hashedFields` -/
+def modelTags : List Bytes :=
+  [tBlockHeader, tCoinbase, tIssuance, tMux, tOriginalOutput, tRetirement, tSpend, tTxHeader, tVeto, tVoteOutput]
+
 end BytomModel.Entry
